@@ -1,0 +1,88 @@
+//! Hooks for the external verification harness. Only compiled with the cargo feature `verif`.
+//!
+//! Read-only accessors for crate-private data of the tree, so that a tree can be compared
+//! with an independent model of the class file.
+
+use java_string::JavaString;
+use crate::tree::class::ClassName;
+use crate::tree::method::code::{Label, LabelRange};
+use crate::tree::module::{Module, ModuleName, PackageName};
+use crate::tree::record::RecordComponent;
+use crate::tree::annotation::Annotation;
+use crate::tree::attribute::Attribute;
+use crate::tree::field::FieldSignature;
+use crate::tree::type_annotation::{TargetInfoField, TypeAnnotation, TypePath, TypePathKind};
+use crate::tree::version::Version;
+
+pub fn label_id(label: &Label) -> u16 {
+	label.id
+}
+
+pub fn label_range(range: &LabelRange) -> (Label, Label) {
+	(range.start, range.end)
+}
+
+pub fn version(version: &Version) -> (u16, u16) {
+	(version.major, version.minor)
+}
+
+#[derive(Debug, Clone, Copy, PartialEq, Eq)]
+pub enum TypePathStep {
+	ArrayDeeper,
+	NestedDeeper,
+	WildcardBound,
+	TypeArgument(u8),
+}
+
+pub fn type_path(path: &TypePath) -> Vec<TypePathStep> {
+	path.path.iter().map(|kind| match kind {
+		TypePathKind::ArrayDeeper => TypePathStep::ArrayDeeper,
+		TypePathKind::NestedDeeper => TypePathStep::NestedDeeper,
+		TypePathKind::WildcardBound => TypePathStep::WildcardBound,
+		TypePathKind::TypeArgument { index } => TypePathStep::TypeArgument(*index),
+	}).collect()
+}
+
+pub struct ModuleView<'a> {
+	pub name: &'a ModuleName,
+	pub flags: u16,
+	pub version: Option<&'a JavaString>,
+	pub requires: Vec<(&'a ModuleName, u16, Option<&'a JavaString>)>,
+	pub exports: Vec<(&'a PackageName, u16, &'a [ModuleName])>,
+	pub opens: Vec<(&'a PackageName, u16, &'a [ModuleName])>,
+	pub uses: &'a [ClassName],
+	pub provides: Vec<(&'a ClassName, &'a [ClassName])>,
+}
+
+pub fn module(module: &Module) -> ModuleView<'_> {
+	ModuleView {
+		name: &module.name,
+		flags: module.flags.into(),
+		version: module.version.as_ref(),
+		requires: module.requires.iter().map(|r| (&r.name, r.flags.into(), r.version.as_ref())).collect(),
+		exports: module.exports.iter().map(|e| (&e.name, e.flags.into(), e.exports_to.as_slice())).collect(),
+		opens: module.opens.iter().map(|o| (&o.name, o.flags.into(), o.opens_to.as_slice())).collect(),
+		uses: &module.uses,
+		provides: module.provides.iter().map(|p| (&p.name, p.provides_with.as_slice())).collect(),
+	}
+}
+
+pub struct RecordComponentView<'a> {
+	pub signature: Option<&'a FieldSignature>,
+	pub runtime_visible_annotations: &'a [Annotation],
+	pub runtime_invisible_annotations: &'a [Annotation],
+	pub runtime_visible_type_annotations: &'a [TypeAnnotation<TargetInfoField>],
+	pub runtime_invisible_type_annotations: &'a [TypeAnnotation<TargetInfoField>],
+	pub attributes: &'a [Attribute],
+}
+
+pub fn record_component(record_component: &RecordComponent) -> RecordComponentView<'_> {
+	RecordComponentView {
+		signature: record_component.signature.as_ref(),
+		runtime_visible_annotations: &record_component.runtime_visible_annotations,
+		runtime_invisible_annotations: &record_component.runtime_invisible_annotations,
+		runtime_visible_type_annotations: &record_component.runtime_visible_type_annotations,
+		runtime_invisible_type_annotations: &record_component.runtime_invisible_type_annotations,
+		attributes: &record_component.attributes,
+	}
+}
